@@ -304,7 +304,8 @@ class TracepointExecutionStats:
         :param ts: the time in nanoseconds
         """
         self._fire_count += 1
-        self._last_fire = ts
+        # collections of several threads can complete out of order, keep the latest fire
+        self._last_fire = max(self._last_fire, ts)
 
     @property
     def fire_count(self):
